@@ -805,44 +805,50 @@ func (t *Teamserver) EventListenerErrorOnly(ListenerName string, Error error) {
 func (t *Teamserver) EventListenerError(ListenerName string, Error error) {
 	var pk = events.Listener.ListenerError("", ListenerName, Error)
 
-	t.EventAppend(pk)
-	t.EventBroadcast("", pk)
-
 	// a listener that failed to start is not running: it must neither stay in the listener
 	// list nor be restored from the database at the next start. the name may have been given
-	// to another listener in the meantime (removed and added again): that one is not ours
+	// to another listener in the meantime (removed and added again, as any kind): that one is
+	// not ours, and neither are its announcements
+	var stillOurs = false
+
 	t.ListenersMtx.Lock()
 	for _, listener := range t.Listeners {
 		if listener.Name == ListenerName {
-			if h, ok := listener.Config.(*handlers.HTTP); ok && h.Active {
-				t.ListenersMtx.Unlock()
-				return
+			if h, ok := listener.Config.(*handlers.HTTP); ok && !h.Active {
+				stillOurs = true
 			}
 		}
 	}
-	if t.listenerTake(ListenerName) != nil {
-		if err := t.DB.ListenerRemove(ListenerName); err != nil {
-			logger.Error("Failed to remove listener: ", ListenerName)
+	if stillOurs {
+		if t.listenerTake(ListenerName) != nil {
+			if err := t.DB.ListenerRemove(ListenerName); err != nil {
+				logger.Error("Failed to remove listener: ", ListenerName)
+			}
 		}
-	}
-	t.ListenersMtx.Unlock()
 
-	// also remove the listener from the init packages.
-	t.EventsMtx.Lock()
-	defer t.EventsMtx.Unlock()
-
-	for EventID := range t.EventsList {
-		if t.EventsList[EventID].Head.Event == packager.Type.Listener.Type {
-			if t.EventsList[EventID].Body.SubEvent == packager.Type.Listener.Add {
-				if name, ok := t.EventsList[EventID].Body.Info["Name"]; ok {
-					if name == ListenerName {
-						t.EventsList[EventID].Body.Info["Status"] = "Offline"
-						t.EventsList[EventID].Body.Info["Error"] = Error.Error()
+		// mark its announcement in the init packages and record the error, before the name
+		// can be taken again (ListenersMtx is still held)
+		t.EventsMtx.Lock()
+		for EventID := range t.EventsList {
+			if t.EventsList[EventID].Head.Event == packager.Type.Listener.Type {
+				if t.EventsList[EventID].Body.SubEvent == packager.Type.Listener.Add {
+					if name, ok := t.EventsList[EventID].Body.Info["Name"]; ok {
+						if name == ListenerName {
+							t.EventsList[EventID].Body.Info["Status"] = "Offline"
+							t.EventsList[EventID].Body.Info["Error"] = Error.Error()
+						}
 					}
 				}
 			}
 		}
+		t.EventsList = append(t.EventsList, pk)
+		t.EventsMtx.Unlock()
 	}
+	t.ListenersMtx.Unlock()
+
+	// tell the operators (when the name is not ours any more this is all: nothing of it is
+	// kept for newcomers)
+	t.EventBroadcast("", pk)
 }
 
 func (t *Teamserver) SendEvent(id string, pk packager.Package) error {
